@@ -2,7 +2,7 @@
 """seedsave.py <ID> <seed-name> <demo file> <needs> <caught-by> — copy a confirmed seeded change into /verif/seeded/<seed-name>/"""
 import sys, os, shutil, json, subprocess
 pid, name, demo, needs, caught = sys.argv[1:6]
-src = '/tmp/seed_%s' % pid
+src = sys.argv[6] if len(sys.argv) > 6 else '/tmp/seed_%s' % pid
 dst = '/verif/seeded/%s' % name
 os.makedirs(dst, exist_ok=True)
 shutil.copy(src + '/patch.diff', dst + '/patch.diff')
